@@ -1,7 +1,8 @@
 (* GENERATED on every run by harness/translate/c03.py from
    src/lenskit/basic/topn.py (TopNRanker.__call__) and src/lenskit/stats.py (argtopn) -- do not edit. *)
-From Coq Require Import ZArith Bool.
+From Coq Require Import ZArith Bool List.
 From LK Require Import Lib.PyInt.
+Import ListNotations.
 Open Scope Z_scope.
 
 Definition topn_len (n : pyv) (config_n : pyv) : res outcome :=
